@@ -1217,17 +1217,18 @@ tsk_treeseq_check_windows(const tsk_treeseq_t *self, tsk_size_t num_windows,
             goto out;
         }
     } else {
-        if (windows[0] < 0) {
+        /* The comparisons are written so that NaN values are rejected */
+        if (!(windows[0] >= 0)) {
             ret = tsk_trace_error(TSK_ERR_BAD_WINDOWS);
             goto out;
         }
-        if (windows[num_windows] > self->tables->sequence_length) {
+        if (!(windows[num_windows] <= self->tables->sequence_length)) {
             ret = tsk_trace_error(TSK_ERR_BAD_WINDOWS);
             goto out;
         }
     }
     for (j = 0; j < num_windows; j++) {
-        if (windows[j] >= windows[j + 1]) {
+        if (!(windows[j] < windows[j + 1])) {
             ret = tsk_trace_error(TSK_ERR_BAD_WINDOWS);
             goto out;
         }
